@@ -393,6 +393,33 @@ func runC19(r *Run) {
 			if !isC || !isBuiltin(c, "append") {
 				continue // initial empty slices
 			}
+			// table form: the section name is looked up in a package-level map literal (nothing writes it) under the
+			// purpose of this iteration — then each entry of the literal is one case, and its value must equal its key
+			kt := kf.TB.Of(mu.Key)
+			if kt.Op == "res" && kt.Idx == 0 && len(kt.Args) == 1 {
+				kt = kt.Args[0] // value of a comma-ok lookup
+			}
+			if kt.Op == "lookup" && len(kt.Args) == 2 && kt.Args[0].Op == "global" && strings.Contains(kt.Args[1].String(), ".Purpose(") {
+				if gv, isG := kt.Args[0].Val.(*ssa.Global); isG && gv.Pkg != nil && len(r.readOnlyMapKeys(kt.Args[0])) > 0 {
+					entries, _ := r.mapLiteralKeys(core.Rel(gv.Pkg.Pkg.Path()), gv.Name())
+					first := kf.TB.Of(c.Common().Args[0])
+					sameSection := first.Op == "lookup" && len(first.Args) == 2 && first.Args[1].String() == kf.TB.Of(mu.Key).String()
+					elOK := false
+					for _, e := range variadicElems(c.Common().Args[1]) {
+						if core.MatchTerm("Transformer.getObjectID(...)", kf.TB.Of(stripIface(e)), core.Bind{}) {
+							elOK = true
+						}
+					}
+					underHit := core.HasFact(kf.At(mu), "hit(_, _)")
+					for purpose, section := range entries {
+						nCases++
+						if purpose != section || !sameSection || !elOK || !underHit {
+							pbad = append(pbad, fmt.Sprintf("purpose %q appends to section %q (table %s; same section read and written: %v, id element: %v, under the lookup's hit: %v)", purpose, section, gv.Name(), sameSection, elOK, underHit))
+						}
+					}
+					continue
+				}
+			}
 			nCases++
 			key := strings.Trim(kf.TB.Of(mu.Key).String(), `"`)
 			at := kf.At(mu)
